@@ -160,6 +160,13 @@ impl<'a> SendLastStateProofProcess<'a> {
         return_if_failed!(check_continuous_headers(
             &headers[(reorg_count + sampled_count)..]
         ));
+        // The last n headers should end at the parent of the last header.
+        if let Some(header) = headers.last() {
+            return_if_failed!(check_continuous_headers(&[
+                header.to_owned(),
+                last_header.header().to_owned()
+            ]));
+        }
 
         // Verify MMR proof
         return_if_failed!(verify_mmr_proof(
